@@ -42,6 +42,7 @@ type Node struct {
 	SW      *coordinator.ShardWriter
 	PW      *coordinator.PointsWriter
 	QE      *query.Executor
+	CS      *storage.ClusterStore // what the storage (read) service of the node uses
 	ln      *simnet.Listener
 	dln     *simnet.Listener
 	mux     *tcp.Mux
@@ -203,6 +204,8 @@ func (c *Cluster) startNode(ni meta.NodeInfo, index string) (*Node, error) {
 		},
 		PointsWriter: n.PW,
 	}
+
+	n.CS = storage.NewClusterStore(&coordinator.ClusterTSDBStore{Store: n.Sim.Store, MetaExecutor: n.ME}, n.Meta, n.ME)
 
 	n.Svc = coordinator.NewService(cc)
 	n.Svc.TSDBStore = n.Store
